@@ -3,7 +3,7 @@ E (entry wiring), V (validity) and the checks C01, C02, C03, C04, C05, C08, C09,
 from itertools import combinations
 from .base import *
 from .cards import (premise_layout, check_filter_cells, check_comb_table, check_selection, comparison_only, weak_orderings,
-                    set_partition_orderings, arr_of, describe_slots, slot_atoms, PC)
+                    set_partition_orderings, arr_of, describe_slots, slot_atoms, PC, refute_sort_on_cards)
 from ..evals import BitVec, b_or, b_and, b_not, b_deps, children, substitute, cell_representatives
 from ..sym import Exec, State, mk_bin, mk_cast, mk_ite, and_all, mk_not, CFG
 from ..pdb import INT_BITS
@@ -1059,17 +1059,23 @@ def bestof_loop(ctx, path, n, rule, need):
             if set(atoms_of(retv[2][1])) == set(batoms):
                 l_hand = l
     okw = False
+    wit_msg = "the reported hand is not the remembered best candidate arranged in descending card order"
     if l_hand is not None and wit is not None and len(wit) == 5:
         batoms = [x[1] for x in arr_of(names[l_hand])]
         okw = True
-        for t in weak_orderings(5):
+        co, why = comparison_only(retv[2][1], set(batoms))
+        if not co:
+            cex = refute_sort_on_cards(ctx, wit, batoms)
+            okw = False
+            wit_msg = ("sorting the best hand %s reports %s, which is not descending card order" % ([hex(w) for w in cex[0]], [hex(w) if w is not None else w for w in cex[1]])) if cex else "UNCERTIFIED: the final sort looks inside the card words (%s)" % why
+        for t in (weak_orderings(5) if co else []):
             env = {nm: 10 * (r + 1) for nm, r in zip(batoms, t)}
             got = [cval(evaluate(pdb, x, env)) for x in wit]
             if got != sorted(env.values(), reverse=True):
                 okw = False
                 break
         rep.evals(541)
-    ob("witness-sorted", short(path), okw, "the reported hand is not the remembered best candidate arranged in descending card order", where)
+    ob("witness-sorted", short(path), okw, wit_msg, where)
     if l_best is None or l_hand is None:
         return None
     ob("initial-best", short(path), frame0[l_best][0] == "c" and frame0[l_best][1] == 0, "the running best value does not start at 0 (no hand yet)", where)
@@ -1319,7 +1325,10 @@ def bestof_reduction(ctx, path, n, rule, need, ob, key, sty, k5v):
         wl = arr_of(wit)
         if wl is not None and len(wl) == 5 and set(atoms_of(wit)) <= {"w%d" % j for j in range(5)}:
             okw = True
-            for t in weak_orderings(5):
+            co, why = comparison_only(wit, {"w%d" % j for j in range(5)})
+            if not co:
+                okw = refute_sort_on_cards(ctx, wl, ["w%d" % j for j in range(5)]) is None and False
+            for t in (weak_orderings(5) if co else []):
                 env = {"w%d" % j: 10 * (r + 1) for j, r in enumerate(t)}
                 if [cval(evaluate(pdb, x, env)) for x in wl] != sorted(env.values(), reverse=True):
                     okw = False
@@ -1394,7 +1403,11 @@ def check_C03(ctx):
         names = ["s%d" % i for i in range(5)]
         ok, why = comparison_only(out, set(names))
         if not ok:
-            rep.uncertified("C03.five-sort", why, pdb.where(k_cp))
+            cex = refute_sort_on_cards(ctx, arr_of(out), names)
+            if cex:
+                rep.ob("C03.five-sort", "card hands", False, "Five::sort of %s gives %s: not descending card order" % ([hex(w) for w in cex[0]], [hex(w) if w is not None else w for w in cex[1]]), pdb.where(k_cp))
+            else:
+                rep.uncertified("C03.five-sort", why, pdb.where(k_cp))
             return
         bad = 0
         for t in weak_orderings(5):
